@@ -100,11 +100,19 @@ func (s *session) close() {
 // In-memory Badger instances are expensive to create (64 MB memtable arenas), so finished sessions hand their
 // instance back and the next session gets it with every key deleted.
 var memPool []*kv.BadgerDB
+var memUses = map[*kv.BadgerDB]int{}
 
 func pooledMemDB() basedb.Database {
-	if n := len(memPool); n > 0 {
+	for len(memPool) > 0 {
+		n := len(memPool)
 		db := memPool[n-1]
 		memPool = memPool[:n-1]
+		memUses[db]++
+		if memUses[db] > 25 { // deleted keys stay as tombstones in the memtable and slow every scan down
+			delete(memUses, db)
+			_ = db.Close()
+			continue
+		}
 		must(db.Badger().Update(func(txn *badger.Txn) error {
 			it := txn.NewIterator(badger.IteratorOptions{PrefetchValues: false})
 			var keys [][]byte
